@@ -712,10 +712,17 @@ class WaveShareNmea2000Gateway(AsyncIOClient):
             start = self._buffer.find(b"\xaa\x55")
 
             if start == -1:
-                # If start marker not found, wait for more data
+                # If start marker not found, wait for more data. Nothing before the
+                # end of the buffer can start a packet, except a trailing half marker
+                if self._buffer.endswith(b"\xaa"):
+                    self._buffer = self._buffer[-1:]
+                else:
+                    self._buffer = bytearray()
                 break
             if start + 20 > len(self._buffer):
-                # Not enough data for a full packet yet
+                # Not enough data for a full packet yet; drop the noise before the marker
+                if start > 0:
+                    self._buffer = self._buffer[start:]
                 break
 
             # Extract the complete packet, including the end delimiter
